@@ -291,6 +291,8 @@ class MPEGPacket(object):
         self.continuitycounter = counter_full & 0xF
         self.adaption_ctrl = (counter_full >> 4) & 0x3
         self.tsc = (counter_full >> 6) & 0x3
+        self.adaption_field = None
+        self.payload = bytes()
 
         if self.adaption_ctrl == ADAPTION_PAYLOAD_AND_ADAPTION:  # payload + adaption
             (adaption_len,) = struct.unpack_from(">B", buf[4:])
